@@ -564,6 +564,46 @@ def c04_random_access_layout():
     ]
 
 
+def c04_rows_tile_by_running_total():
+    """C04 / C06: index_fasta_file is proved to build rows that describe the record by their own coordinates
+    (specs/fasta_index.rows_tile: fragments over ACGT runs, gaps filling exactly the stretch between their
+    neighbours, alternating).  From that: the coordinates are the running totals of the row lengths - fragment row
+    k has start == cum(k) + 1 and end == cum(k + 1), a gap row k covers positions cum(k) .. cum(k+1) - and the
+    total is the record length: 'the derived assembly tiles each record completely and in order'.  By induction on
+    the row number (base and step discharged here; the induction principle is the meta-step)."""
+    from .fasta_index import rows_tile
+
+    st, rows = _pre_state_rows("rows")
+    name = z3.String("record")
+    base, L, j = z3.Ints("base L j")
+    n = rows.len
+    tile = z3.And(*[f for _, f in rows_tile(rows, name, base, L, closed=True)])
+
+    def edge(k):
+        # where row k starts, read off the coordinates of its neighbours
+        return z3.If(k == 0, 0, z3.If(rows[k - 1].is_frag, rows[k - 1].end, z3.If(k < n, rows[k].start - 1, L)))
+
+    def claim(k):
+        return rows.cum(k) == edge(k)
+
+    pc = [tile, n >= 0, L >= 0]
+    rng = [0 <= j, j < n]
+    unroll = rows.cum(j + 1) == rows.cum(j) + rows[j].length
+    r = rows[j]
+    g = z3.Int("g")
+    covered = z3.And(base + rows.cum(j) <= g, g < base + rows.cum(j + 1))
+    return [
+        ("induction-base", pc, claim(z3.IntVal(0))),
+        ("unroll", pc + rng, unroll),
+        ("induction-step", pc + rng + [unroll, claim(j)], claim(j + 1)),
+        ("fragment-coordinates-are-running-totals", pc + rng + [unroll, claim(j), claim(j + 1), r.is_frag], z3.And(r.start == rows.cum(j) + 1, r.end == rows.cum(j + 1))),
+        ("fragment-rows-cover-acgt-only", pc + rng + [unroll, claim(j), claim(j + 1), r.is_frag, covered], smt.acgt(g)),
+        ("gap-rows-cover-no-acgt", pc + rng + [unroll, claim(j), claim(j + 1), r.is_gap, covered], z3.Not(smt.acgt(g))),
+        ("total-is-the-record-length", pc + [claim(n)], rows.cum(n) == L),
+        ("every-row-has-a-length", pc + rng, r.length >= 1),
+    ]
+
+
 def c04_derived_assembly_streams_back():
     """C04: 'streaming it back reproduces every record with only non-ACGT symbols replaced by N' - over the
     tiling clause of the derived assembly (each maximal ACGT run [s, e] one forward fragment name:s-e, each other
